@@ -153,9 +153,24 @@ contract("monkeytype.tracing:get_func_in_mro", props=["C02", "C03"], theories=TH
          params={"obj": "Val", "code": "Code"}, result="Opt[Callee]",
          ensures={"post:code": "implies(result is not None, callee_code(result) is code)"})
 
-contract("monkeytype.tracing:get_locals_from_previous_frames", props=["C02"], theories=TH, mode="assumed",
-         params={"frame": "Frame"}, result="Seq[Callee]", ensures={"post:def": "result is prev_locals(frame)"},
-         note="generator over frame.f_back chains: the values of the locals of the frame and of all its callers")
+contract("monkeytype.tracing:get_previous_frames", props=["C02"], theories=TH, definitional=["post:def"],
+         params={"frame": "Opt[Frame]"}, result="Seq[Frame]",
+         # the frame and its callers, innermost first; termination is the finiteness of the interpreter's stack (not claimed)
+         ensures={"post:def": "result is frames_from(frame)", "post:frames": "forall(result, lambda f: f is not None)",
+                  "post:first": "implies(frame is not None, len(result) > 0 and nth(result, 0) is frame)"},
+         loops={0: {"inv": {"frames": "forall(L_yielded, lambda f: f is not None)",
+                            "first": "implies(entry('frame') is not None, (len(L_yielded) == 0 and frame is entry('frame')) or (len(L_yielded) > 0 and nth(L_yielded, 0) is entry('frame')))"},
+                    "tags": {"frame": "Opt[Frame]"}}},
+         note="termination of the f_back walk is the finiteness of the interpreter's stack")
+
+contract("monkeytype.tracing:get_locals_from_previous_frames", props=["C02"], theories=TH, definitional=["post:def"],
+         params={"frame": "Frame"}, result="Seq[Callee]",
+         ensures={"post:def": "result is prev_locals(frame)",
+                  # nothing but values of the locals of the frame and of its callers
+                  "post:only-locals": "forall_v(lambda v: implies(has(result, v), exists(range_(0, len(frames_from(frame))), lambda j: has(values_(locals_of(nth(frames_from(frame), j))), v))))"},
+         loops={0: {"iter": "get_previous_frames(frame)",
+                    "inv": {"only-locals": "forall_v(lambda v: implies(has(L_yielded, v), exists(range_(0, _i), lambda j: has(values_(locals_of(nth(_seq, j))), v))))"}}},
+         note="generator over frame.f_back chains: the values of the locals of the frame and of all its callers (defines prev_locals; proved: nothing raises, no operation on a program value)")
 
 contract("monkeytype.tracing:get_func", props=["C02", "C03"], theories=TH + ["cli"],
          params={"frame": "Frame"}, result="Opt[Func]",
